@@ -196,8 +196,29 @@ func c16Case(c *Ctx) {
 				}
 			}()
 			c.Count("knob_excursions", 2)
+			// a caller-written separator function that panics (as the library itself does when the source
+			// fails) inside Generate and inside Entropy; the caller recovers; then the presets are used
+			func() {
+				wl, _ := spg.NewWordList([]string{"uno", "dos", "tres"})
+				r := spg.NewWLRecipe(3, wl)
+				r.SeparatorFunc = spg.SFDigits1
+				runGen(r, &tape.Tape{Script: []uint32{1, 2, 0}, AutoExtend: true, FaultAt: 6, FaultBytes: 1})
+				runGen(r, &tape.Tape{Script: []uint32{1, 2, 0}, AutoExtend: true, FaultAt: 4, FaultBytes: 0})
+				r.SeparatorFunc = func() (string, spg.FloatE) { panic("separator source failed") }
+				func() { defer func() { recover() }(); r.Generate() }()
+				func() { defer func() { recover() }(); r.Entropy() }()
+				// nothing else is called before the presets are examined
+			}()
 		}
 		for _, name := range names {
+			if c.Case == 3 {
+				func() {
+					wl, _ := spg.NewWordList([]string{"uno", "dos", "tres"})
+					r := spg.NewWLRecipe(3, wl)
+					r.SeparatorFunc = func() (string, spg.FloatE) { panic("separator source failed") }
+					func() { defer func() { recover() }(); r.Entropy() }()
+				}()
+			}
 			c16Preset(c, name)
 		}
 	case 4, 5: // shipped lists
